@@ -384,6 +384,9 @@ class Sim:
             # frame STREAMING API: beginMessage / beginMessageFrame / sendMessageFrameData ... endMessage.  The octets the
             # application streams are taken off the transport here (they are not library-framed writes); everything the
             # library writes on its own (auto-pings, close frames) is a complete frame per write and is parsed as before.
+            # One exception: the call that completes a frame may be followed, in the same write burst, by PING/PONG
+            # frames the library had to hold back while the frame was half-sent (S-01e): whatever follows the exact
+            # number of payload octets handed over in that call is put on the recorded wire for after_step().
             if self.lost or self.phase != "open" or self.dropped_at is not None:
                 return
             p = self.proto
@@ -402,9 +405,14 @@ class Sim:
                     self.stream_left -= n
             if kind in ("st_end", "st_frame") and (self.stream_left or self.stream_msg):
                 if self.stream_left:
+                    self.stream_taken = getattr(self, "stream_taken", 0) + len(ep.take_output())
                     p.sendMessageFrameData(b"e" * self.stream_left)
+                    out = ep.take_output()
+                    if len(out) > self.stream_left:
+                        self.wire += out[self.stream_left:]
                     self.stream_left = 0
                     self.stream_spans[-1][1] = now
+                    self.frame_completed_in_step = True
                 if kind == "st_end":
                     p.endMessage()
                     self.stream_msg = False
@@ -701,7 +709,7 @@ class Sim:
         now = W.now()
         # 1. our octets
         data = ep.take_output()
-        if data:
+        if data or (getattr(self, "frame_completed_in_step", False) and self.wire):
             self.wire += data
             if not self.px_head_done:
                 k = self.wire.find(b"\r\n\r\n")
@@ -726,9 +734,12 @@ class Sim:
                 for f in frames:
                     self.log("tx-frame", f.opcode, f.length)
                     if f.opcode == ref.OP_PING:
+                        if getattr(self, "frame_completed_in_step", False):
+                            self.R.count("pings_written_at_frame_completion")
                         self.on_ping_written(now, f.payload)
                     elif f.opcode == ref.OP_CLOSE:
                         self.on_our_close_written(now)
+        self.frame_completed_in_step = False
         # 2. application callbacks
         ev = app_events(ep)
         for e in ev[self.n_app:]:
